@@ -508,6 +508,27 @@ func (ar *AdmRun) exec(k *sim.Kernel, op AdmOp) {
 		if call.C != nil {
 			call.C.Leave(false)
 		}
+	case "reannounce":
+		// an RTSP publisher announces again on its established connection: whatever lal makes of it (it may end the
+		// session), the stream must not be left with an input nobody can remove
+		if op.Actor >= len(ar.Actors) {
+			return
+		}
+		a := ar.Actors[op.Actor]
+		if a.Rtsp == nil || !a.Started || a.Stopped || !a.Rtsp.Ready || a.Rtsp.Closed {
+			return
+		}
+		if a.Attempt != nil && a.Attempt.RelCall < 0 {
+			a.Attempt.RelCall = k.Step()
+		}
+		a.Rtsp.Reannounce()
+		k.Settle()
+		if !a.Rtsp.Closed {
+			a.Rtsp.Leave(false)
+		}
+		a.Stopped = true
+		a.StopStep = k.Step()
+		k.Probe("c03_rtsp_reannounce")
 	case "kick_stale":
 		// ids of sessions that have certainly ended (their stop was notified), else ids that never existed
 		k.Settle()
